@@ -1218,7 +1218,7 @@ func runC15(tier string, _ []string) {
 		"Effects are read from disk, the process table and the received bytes (new unit directories on T and on R attributed by lock and by the payload they received, producer pid, unit directory removed, cancel/release flags in the status file, the unit's output on the connection), never from the reply. " +
 		"the seed draws the variant inside a token class (garbage form, truncation point, age of the expired token, foreign audience, whitespace form), unit payload seeds, the cell order and the extra token class of the reduced remote part. " +
 		"A cell is distinct by (command, connection kind, work-type class, token class) and counted only when its outcome was decided from disk / process table / received bytes. " +
-		"Histories (c15sess.go): (a) multi-command sessions - two or three commands on ONE tcp / mesh connection, each about its own verifying-type unit, in the shapes valid,bad / bad,valid / valid,bad,valid / bad,valid,bad / valid,valid,bad / valid,bad,bad, where 'bad' is any of the refusable token classes or a request form that cannot carry a token (plain-text line, signature null, signature a number) and an accepted non-final command is a cancel / release / force-release; every command must have the outcome it has on a fresh connection (quick: each second command x {absent, plain-text, one seeded class} after a valid first one, one reverse session per first command, one of each three-command shape, per connection kind; thorough: first command x second command x all classes, 15 of each three-command shape); units of refused steps are looked at again at the end of the session. " +
+		"Histories (c15sess.go): (a) multi-command sessions - two or three commands on ONE tcp / mesh connection, each about its own verifying-type unit, in the shapes valid,bad / bad,valid / valid,bad,valid / bad,valid,bad / valid,valid,bad / valid,bad,bad, where 'bad' is any of the refusable token classes or a request form that cannot carry a token (plain-text line, signature null, signature a number) and an accepted non-final command is a cancel / release / force-release; every command must have the outcome it has on a fresh connection (quick, per connection kind: each second command x {absent, plain-text or one seeded class} after a valid first one, about three reverse sessions, one of each three-command shape; thorough: each second command x all classes after a seeded valid first one and x {absent, plain-text} after each of the three, each first command x all classes in reverse, 10 of each three-command shape); units of refused steps are looked at again at the end of the session. " +
 		"(b) replacement of the verification key on a daemon of its own (k15): the configured key file is replaced (rename over it / rewrite in place / remove and create) while the daemon runs, after commands were verified with the previous content; in every generation (quick: A, B, A; thorough: seven generations of three keys) each protected command over tcp and mesh is sent with an unexpired, correctly addressed RS512 token of every key: the key in the file must work, retired and never-configured keys must be refused without effect; all commands of a generation are over before the file is touched.")
 	run.Assume("'the configured key' is the content of the configured key file at the time the command is judged (the file is complete and no command is in flight while it is replaced)")
 	run.Assume("Unix-socket commands are used by the harness to create and to clean up target units (exempt by the statement)")
@@ -1299,9 +1299,6 @@ func runC15(tier string, _ []string) {
 	j := &c15Judge{run: run, tab: map[string]int{}}
 	// key replacement runs on its own daemon, next to the matrix
 	sessions := c15SessionPlan(run.Seed, full)
-	if os.Getenv("C15_TMP_NOHIST") == "1" { // TEMPORARY (timing comparison)
-		sessions = nil
-	}
 	rotKeys := []*c15Keys{k1, k2}
 	if full {
 		k3, err := c15NewKeys()
@@ -1313,10 +1310,6 @@ func runC15(tier string, _ []string) {
 	}
 	rotDone := make(chan int, 1)
 	go func() {
-		if os.Getenv("C15_TMP_NOHIST") == "1" {
-			rotDone <- 0
-			return
-		}
 		rotDone <- c15KeyReplacement(run, j, base, filepath.Join(base, "producer.sh"), rotKeys, full)
 	}()
 	for _, a := range arenas {
